@@ -370,8 +370,13 @@ MutantCases ==
                             pos \in 1..NProps(p), z \in BOOLEAN, fs \in BOOLEAN} : p \in {q \in base : NProps(q) \in 1..2}}
              \* a property repeated, the second occurrence malformed: a boolean of 7, or the frame ending one byte early inside it
              \cup UNION {{[kind |-> "dupbad", p |-> p, pos |-> pos, mode |-> md] :
-                            pos \in {i \in 1..NProps(p) : PropKind(p.v["Props"][i][1]) # "pair"}, md \in {"bool7", "cut1"}}
+                            pos \in {i \in 1..NProps(p) : PropKind(p.v["Props"][i][1]) # "pair"}, md \in {"bool7", "cut1", "skip"}}
                          : p \in {q \in SweepBase(t) \cup base : NProps(q) \in 1..2 /\ DOMAIN q.v \cap {"Payload", "Filters", "ReasonCodes", "ClientID"} = {}}}
+             \* the same with bytes behind the property section (defect F14 needs room to land in): PUBLISH with a payload
+             \cup (IF t = 3 THEN {[kind |-> "dupbad", p |-> [t |-> 3, fl |-> fl, v |-> [TopicName |-> Txt(3), Props |-> <<PV(id, Txt(n))>>, Payload |-> PropLikePayload]
+                                                                 @@ (IF fl = 2 THEN [PacketID |-> 65535] ELSE EmptyFn)],
+                                    pos |-> 1, mode |-> "skip"] : id \in {3, 8, 9}, n \in {2, 3, 5}, fl \in {0, 2}}
+                  ELSE {})
              \* text fields holding bytes that are not well-formed UTF-8, among them long runs of continuation bytes
              \cup {[kind |-> "badtext", p |-> p] : p \in UNION {TextPkts(t, tx) : tx \in BadTexts}}
              \* every variable byte integer of the frame (remaining length = field 0, property lengths, subscription
@@ -419,7 +424,17 @@ MutantFrame(m) ==
        LET pr == m.p.v["Props"][m.pos]
            n == NProps(m.p)
            g == Encode(WithProp(m.p, n + 1, IF m.mode = "bool7" /\ PropKind(pr[1]) = "bool" THEN PV(pr[1], 7) ELSE pr))    \* the repeat is the last property
-       IN IF m.mode = "cut1" THEN SubSeq(<<g[1], g[2] - 1>> \o SubSeq(g, 3, Len(g) - 1), 1, Len(g) - 1) ELSE g
+           \* skip: the repeat of a string / binary property is EMPTY and an undefined identifier stands behind it (defect F14: the decoder
+           \* moved on by the width of the first value and never looked at that identifier)
+           \* (the property section ends with the repeat and two more bytes, 00 01; property length and remaining length, both one byte, count them)
+           g0 == Encode(WithProp(m.p, n + 1, PV(pr[1], <<>>)))
+           plpos == LET fm == d.fm IN fm[CHOOSE i \in 1..Len(fm) : fm[i].k = "vbi" /\ ~fm[i].pv /\ \A j \in 1..(i - 1) : ~(fm[j].k = "vbi" /\ ~fm[j].pv)].s
+           pend == plpos + g0[plpos]                                       \* last byte of the property section in g0
+           g1 == [[g0 EXCEPT ![2] = @ + 2] EXCEPT ![plpos] = @ + 2]
+           g2 == SubSeq(g1, 1, pend) \o <<0, 1>> \o SubSeq(g1, pend + 1, Len(g1))
+       IN IF m.mode = "cut1" THEN SubSeq(<<g[1], g[2] - 1>> \o SubSeq(g, 3, Len(g) - 1), 1, Len(g) - 1)
+          ELSE IF m.mode = "skip" THEN g2
+          ELSE g
   ELSE IF m.kind = "dupprop" THEN
        LET pr == m.p.v["Props"][m.pos]
            other == IF m.zero THEN PV(pr[1], IF PropKind(pr[1]) = "pair" THEN <<pr[2][1], <<>>>> ELSE ZeroWire(pr[1])) ELSE pr
@@ -431,6 +446,7 @@ MutantValid(m) == IF m.kind \in {"undef", "foreign", "badutf8"} THEN m.pos <= Le
                   ELSE IF m.kind = "dupbad" THEN /\ Len(Encode(m.p)) < 120          \* (one-byte remaining length, so that cut1 can lower it in place)
                                                  /\ (m.mode = "bool7" => PropKind(m.p.v["Props"][m.pos][1]) = "bool")
                                                  /\ (m.mode = "cut1" => PropKind(m.p.v["Props"][m.pos][1]) \in {"u16", "u32", "str", "bin"})
+                                                 /\ (m.mode = "skip" => PropKind(m.p.v["Props"][m.pos][1]) \in {"str", "bin"} /\ Len(m.p.v["Props"][m.pos][2]) >= 2 /\ Len(Encode(m.p)) < 100)
                   ELSE IF m.kind = "badsubid" THEN m.t \notin {12, 13}
                   ELSE TRUE
 
@@ -443,7 +459,7 @@ MutantTheorems(m) ==
   ELSE IF m.kind = "vbi5" /\ m.fld # 0 /\ ~StrictDecode(Encode(m.p)).fm[m.fld].pv     \* a property length (the value of a property would
   THEN LET vd == Verdict(f) IN vd.kind = "reject" /\ vd.cls = "fifth"                   \* outgrow its section: see badsubid for those)
   ELSE IF m.kind = "dupbad"          \* the lenient reading meets the fault behind the repeated property: must reject, whatever the decoder tolerates
-  THEN LET vd == Verdict(f) IN vd.kind = "reject" /\ vd.cls = (IF m.mode = "bool7" THEN "bool" ELSE "cut")
+  THEN LET vd == Verdict(f) IN vd.kind = "reject" /\ vd.cls = (IF m.mode = "bool7" THEN "bool" ELSE IF m.mode = "skip" THEN "undef" ELSE "cut")
   ELSE IF m.kind = "badsubid"        \* a subscription identifier where the packet may carry none: its integer is still an integer
   THEN LET vd == Verdict(f) IN Len(m.val) = 5 => vd.kind = "reject" /\ vd.cls = "fifth"
   ELSE TRUE
